@@ -16,7 +16,6 @@ import (
 	"path/filepath"
 	"runtime"
 	"sort"
-	"strings"
 	"sync"
 	"time"
 
@@ -46,7 +45,8 @@ type rawStore struct {
 	m     map[string][]byte
 	token map[string]int // name -> n of the n-th distinct name ever received (1-based)
 	names []string       // token-1 -> name
-	log   []string       // every call made by the encrypt layer: "recv <tok>", "rm <tok>,…"
+	calls   *[]call // shared, ordered log of the calls made by the encrypt layer
+	callsMu *sync.Mutex
 
 	onRecv func() // called (outside the lock) after a blob was stored
 
@@ -89,7 +89,7 @@ func (s *rawStore) ReceiveBlob(ctx context.Context, br blob.Ref, src io.Reader) 
 		s.token[name] = len(s.names)
 	}
 	s.m[name] = b
-	s.log = append(s.log, "recv "+s.tok(name))
+	s.record(call{store: s.label, put: true, names: []string{name}, data: b})
 	cb := s.onRecv
 	s.mu.Unlock()
 	if cb != nil {
@@ -132,7 +132,7 @@ func (s *rawStore) Fetch(ctx context.Context, br blob.Ref) (io.ReadCloser, uint3
 		}
 		if idx >= 0 {
 			seq = true
-			for s.seqNext < idx {
+			for s.seq != nil && s.seqNext < idx {
 				s.seqCond.Wait()
 			}
 		}
@@ -199,13 +199,51 @@ func (s *rawStore) EnumerateBlobs(ctx context.Context, dest chan<- blob.SizedRef
 func (s *rawStore) RemoveBlobs(ctx context.Context, blobs []blob.Ref) error {
 	s.mu.Lock()
 	defer s.mu.Unlock()
-	var toks []string
+	var names []string
 	for _, br := range blobs {
-		toks = append(toks, s.tok(br.String()))
+		names = append(names, br.String())
 		delete(s.m, br.String())
 	}
-	s.log = append(s.log, "rm "+strings.Join(toks, ","))
+	s.record(call{store: s.label, names: names})
 	return nil
+}
+
+// call is one call made to a wrapped store.
+type call struct {
+	store string // "E" or "M"
+	put   bool   // ReceiveBlob (one name, data) or RemoveBlobs (names)
+	names []string
+	data  []byte
+}
+
+func (s *rawStore) record(c call) {
+	if s.calls == nil {
+		return
+	}
+	s.callsMu.Lock()
+	*s.calls = append(*s.calls, c)
+	s.callsMu.Unlock()
+}
+
+// plant stores bytes under a name without going through the encrypt layer (tampering).
+func (s *rawStore) plant(name string, b []byte) {
+	s.mu.Lock()
+	defer s.mu.Unlock()
+	if _, ok := s.token[name]; !ok {
+		s.names = append(s.names, name)
+		s.token[name] = len(s.names)
+	}
+	s.m[name] = append([]byte(nil), b...)
+}
+
+func (s *rawStore) snapshot() map[string][]byte {
+	s.mu.Lock()
+	defer s.mu.Unlock()
+	c := make(map[string][]byte, len(s.m))
+	for k, v := range s.m {
+		c[k] = v
+	}
+	return c
 }
 
 // ---- scheduling-controlled index -------------------------------------------------------------------
@@ -217,7 +255,8 @@ type ctlKV struct {
 	sorted.KeyValue
 	mu       sync.Mutex
 	cond     *sync.Cond
-	holdGets bool
+	holdGets bool // start-up scan in progress
+	pending  bool // a ReceiveBlob wrote its meta blob and has not set its index row yet
 	lateSet  bool
 	missed   map[string]bool // keys a Get did not find
 	sets     int
@@ -232,7 +271,7 @@ func newCtlKV() *ctlKV {
 
 func (k *ctlKV) Get(key string) (string, error) {
 	k.mu.Lock()
-	for k.holdGets {
+	for k.holdGets || k.pending {
 		k.cond.Wait()
 	}
 	k.mu.Unlock()
@@ -251,7 +290,7 @@ func (k *ctlKV) Set(key, value string) error {
 	if k.lateSet {
 		k.lateSet = false
 		// let the packer (if one was spawned) run into the missing row first
-		k.holdGets = false
+		k.pending = false
 		k.cond.Broadcast()
 		deadline := time.Now().Add(5 * time.Second)
 		for !k.missed[key] && k.baseline != nil && k.baseline() && time.Now().Before(deadline) {
@@ -264,10 +303,29 @@ func (k *ctlKV) Set(key, value string) error {
 	err := k.KeyValue.Set(key, value)
 	k.mu.Lock()
 	k.sets++
-	k.holdGets = false
+	k.pending = false
 	k.cond.Broadcast()
 	k.mu.Unlock()
 	return err
+}
+
+// metaWritten is called when the ReceiveBlob in progress has written its single meta blob.
+func (k *ctlKV) metaWritten(late bool) {
+	k.mu.Lock()
+	k.missed = map[string]bool{}
+	if late {
+		k.lateSet = true
+	} else {
+		k.pending = true
+	}
+	k.mu.Unlock()
+}
+
+func (k *ctlKV) release() {
+	k.mu.Lock()
+	k.pending, k.lateSet, k.holdGets = false, false, false
+	k.cond.Broadcast()
+	k.mu.Unlock()
 }
 
 func (k *ctlKV) hold(b bool) {
@@ -332,6 +390,8 @@ func (l *loader) GetStorage(p string) (blobserver.Storage, error) {
 }
 
 var (
+	baseOnce       sync.Once
+	baseGoroutines int
 	keyOnce sync.Once
 	keyFile string
 	keyErr  error
@@ -369,6 +429,8 @@ type world struct {
 	kvID        string
 	sto         blobserver.Storage // nil when the last start-up failed
 	base        int                // goroutine baseline at quiescence
+	callsMu     sync.Mutex
+	calls       []call // every call the encrypt layer made to the wrapped stores, in order
 }
 
 func newWorld() (*world, error) {
@@ -377,7 +439,10 @@ func newWorld() (*world, error) {
 		return nil, err
 	}
 	w := &world{blobs: newRawStore("E"), meta: newRawStore("M")}
-	w.base = runtime.NumGoroutine()
+	baseOnce.Do(func() { baseGoroutines = runtime.NumGoroutine() })
+	w.base = baseGoroutines
+	w.blobs.calls, w.meta.calls = &w.calls, &w.calls
+	w.blobs.callsMu, w.meta.callsMu = &w.callsMu, &w.callsMu
 	w.freshKV()
 	if err := w.start(nil); err != nil {
 		return nil, err
@@ -417,6 +482,8 @@ func (w *world) quiesce() bool {
 	return true
 }
 
+var errHang = errors.New("c11: goroutines did not finish")
+
 // start (re)creates the encrypt storage over the same sub-stores: the heap is lost, every meta
 // blob is read again – in the order given (names), one at a time; packers spawned by the scan are
 // held until the scan is over.
@@ -431,13 +498,29 @@ func (w *world) start(order []string) error {
 	w.meta.mu.Unlock()
 	w.kv.hold(true)
 	ld := &loader{sto: map[string]blobserver.Storage{"/b/": w.blobs, "/m/": w.meta}}
-	sto, err := blobserver.CreateStorage("encrypt", ld, jsonconfig.Obj{
-		"I_AGREE":   agreement,
-		"keyFile":   keyFile,
-		"blobs":     "/b/",
-		"meta":      "/m/",
-		"metaIndex": map[string]any{"type": "c11ctl", "id": w.kvID},
-	})
+	type res struct {
+		sto blobserver.Storage
+		err error
+	}
+	done := make(chan res, 1)
+	go func() {
+		sto, err := blobserver.CreateStorage("encrypt", ld, jsonconfig.Obj{
+			"I_AGREE":   agreement,
+			"keyFile":   keyFile,
+			"blobs":     "/b/",
+			"meta":      "/m/",
+			"metaIndex": map[string]any{"type": "c11ctl", "id": w.kvID},
+		})
+		done <- res{sto, err}
+	}()
+	var sto blobserver.Storage
+	var err error
+	select {
+	case r := <-done:
+		sto, err = r.sto, r.err
+	case <-time.After(60 * time.Second):
+		err = errHang
+	}
 	w.meta.mu.Lock()
 	w.meta.seq = nil
 	w.meta.seqCond.Broadcast()
@@ -448,7 +531,7 @@ func (w *world) start(order []string) error {
 		return err
 	}
 	if !ok {
-		return errors.New("c11: goroutines did not finish")
+		return errHang
 	}
 	w.sto = sto
 	return nil
